@@ -341,6 +341,10 @@ func runC13(c *Ctx) {
 
 	// ---- C13.4 ------------------------------------------------------------------------
 	checkDataFileWrites(c, "C13.4")
+	// a second flushing service on the same file writes its (stale) header between the statements of the
+	// first: the USE typestate (one live service per database, the previous one closed) is part of C13
+	c17Use(c, "C13.5")
+	c17Existence(c, "C13.6")
 }
 
 func isLogAppend(f *Func) bool {
